@@ -59,6 +59,9 @@ SKELETONS = [
     dict(name="same-fragment-other-connectivity", text="C(C)(O)C{[$][$]CC[$][$]}|gauss(50,5)|CC(O)C", closed=True),
     dict(name="dollar-token-two-fitting", text="F{[$][$]CC[$][$]}|gauss(50,5)|[$|1|]C(Cl)C(Br)[$|3|]", closed=False, N=(1, 2)),
     dict(name="prefix-ending-in-branch", text="CC(C){[>][<]CC[>][<]}|gauss(50,5)|[H]", closed=True),
+    # two descriptors WRITTEN alike on atoms that are not equivalent (a lookup of the picked descriptor by its text finds the first)
+    dict(name="equal-descriptors-on-different-atoms", text="F{[$][$]CC(C)[$][$]}|gauss(50,5)|Cl", closed=True),
+    dict(name="equal-descriptors-endgroup-start", text="{[][$]CC(C)[$]; [$][H][]}|gauss(50,5)|", closed=True),
     # (not 'closed': the list lets the prefix bond an end group directly, so that the object contributes no repeat unit at all)
     dict(name="left-terminal-list-with-endgroup-entry", text="CC{[$|1 1 2|][$]CC[$]; [$]O[]}|gauss(50,5)|", closed=False),
     dict(name="open-right-end", text="N{[<][<]CC[>][>]}|gauss(50,5)|", closed=False),
@@ -568,6 +571,9 @@ class Oracle:
                 if at.GetAtomicNum() != rat.GetAtomicNum() or at.GetFormalCharge() != rat.GetFormalCharge() or nb_ref != nb_got:
                     okatom = False
             P.check("C04", okatom, f"the bond joins the atoms the descriptors are written on ({rec['site']})")
+            if rec.get("picked_num") is not None and rec["site"] == "add_repeat_unit":
+                # two descriptors written alike are still two descriptors: the one that was picked is the one that is used
+                P.check("C04", int(rec["picked_num"]) == int(b["num"]), "the new unit is attached through the descriptor that was picked")
             P.check("C04", rec["natoms_after"] == rec["natoms_self"] + rec["natoms_other"]
                     and rec["nbonds_after"] == rec["nbonds_self"] + rec["nbonds_other"] + 1,
                     "exactly one bond and no atom is added by an attachment")
